@@ -33,7 +33,9 @@ def interpreter_state():
             "stdlib_random": hash(pyrandom.getstate()),
             "environ": hash(tuple(sorted(os.environ.items()))),
             "cwd": os.getcwd(),
-            "errstate": repr(sorted(np.geterr().items()))}
+            "errstate": repr(sorted(np.geterr().items())),
+            "warnings_filters": repr([(f[0], getattr(f[1], "pattern", f[1]), getattr(f[2], "__name__", f[2]),
+                                       getattr(f[3], "pattern", f[3]), f[4]) for f in __import__("warnings").filters])}
 
 
 class Skip(Exception):
